@@ -111,7 +111,7 @@ def main():
         "Model/C02Td.lean (forward shape arithmetic, shared with C02)",
     ]
     run.assumptions += ["values are checked by the oracle (torch.equal against inverse_op(modified) with canonical arguments) and by value-level inverse theorems on functional tensors; the Lean state is metadata (batch, names, key paths, lock)",
-                        "to_module is left to C13; lazy stacks / tensorclasses are oracle-only"]
+                        "to_module is left to C13; lazy stacks / tensorclasses are oracle-only (by-hand LIFO inverse)"]
     import c17_gen
     try:
         c17_gen.regenerate()
@@ -261,6 +261,52 @@ def main():
             run.oracle_fail("ctx_lazy", case, f"lazy original after the block differs from the by-hand inverse: {bad}", f"lazy:{op1[0]}")
         else:
             run.oracle_ok("ctx_lazy")
+
+    # ---- extended domain (oracle only): tensorclass originals (value edits; the fields of a tensorclass are fixed)
+    from typing import Any
+    from tensordict import tensorclass
+
+    @tensorclass
+    class C17TC:
+        a: Any = None
+        b: Any = None
+        n: Any = None
+
+    for i in range(60 if quick else 600):
+        n1 = rng.choice(["transpose", "permute", "unsqueeze", "flatten", "unflatten", "view", "squeeze", "lock_", "unlock_"])
+        st = L.gen_state(rng, for_op=n1)
+        st = (st[0], st[1], [k for k in st[2] if k[0] in ("a", "b", "n")], st[3])
+        op1 = L.gen_canonical(rng, st, n1)
+        sp1 = rng.choice(L.spellings(op1, st))
+        edits = rng.choice([[], [("value",)]])
+        case = {"container": "tensorclass", "op": list(op1), "spelling": [list(sp1[0]), sp1[1]], "edits": edits, "state": L.enc_state(st)}
+        try:
+            tc = C17TC._from_tensordict(L.build((st[0], st[1], st[2], False)))
+            ref = L.build((st[0], st[1], st[2], False))
+            if st[3]:
+                tc.lock_(); ref.lock_()
+            with L.time_limit(5.0):
+                with L.apply_spelled(tc, op1[0], *sp1) as y:
+                    for j, e in enumerate(edits):
+                        L.do_edit(y, e, j)
+        except Exception as e:  # noqa: BLE001
+            if op1[0] == "squeeze" and op1[1] is None:
+                run.count("tc.outcome", "implicit-squeeze")
+                continue
+            run.count("tc.outcome", "err:" + type(e).__name__)
+            run.oracle_fail("ctx_tc", case, f"a valid context-managed call on a tensorclass raised {type(e).__name__}: {str(e)[:140]}", f"tc:{op1[0]}:raises:{type(e).__name__}")
+            continue
+        run.count("tc.outcome", "ok")
+        was = ref.is_locked
+        yr = L.apply_spelled(ref, op1[0], *sp1)
+        for j, e in enumerate(edits):
+            L.do_edit(yr, e, j)
+        L.write_back(ref, op1, yr, was)
+        bad = L.same_td(tc._tensordict, ref)
+        if bad:
+            run.oracle_fail("ctx_tc", case, f"tensorclass original after the block differs from the by-hand inverse: {bad}", f"tc:{op1[0]}")
+        else:
+            run.oracle_ok("ctx_tc")
 
     st = ((1, 2, 3), ("a", None, "c"), [("a",), ("n", "c")], False)
     run.sample({"stream": "with", "call": "transpose(dim0=1, dim1=-1) + add key",
